@@ -85,6 +85,10 @@ SPEC = {
         'C19_txcache_guard_is_exact shows this guard is also necessary; single_use_b (no method twice on a wrapper) is the '
         'way every call site inside the repository uses the type',
         'a TransactionCache whose wrapped *Transaction is mutated between calls is not modelled',
+        'Transaction.From / fromAddr as repaired in /repo 909acb0 (op OFrom: "" instead of a panic for an unregistered address id or a '
+        'driver that cannot convert the key; direct address.PubKeyToAddr, op OPub, still panics); Transaction.checkSign refuses a '
+        'signature without derivable sender and converts the signer key through the address driver cache at the crypto context '
+        'height (the harness pins the context to the height of the call): OSign has a cache key in guard_b / finding-4 signature',
         'address.SetNormalAddrVer / re-running address.Init or crypto.Init in the middle of a history is not modelled '
         '(configuration is fixed per history)',
     ],
